@@ -95,3 +95,61 @@ theorem fromBytesInner_canonical {q : Nat} (hq : q % 2 = 1) (hq255 : q < 2 ^ 255
           rw [this, hs]; omega
 
 end MidnightZK.C11
+
+namespace MidnightZK.C11
+
+theorem edDecodeGen_canonical_partial {q : Nat} (hq0 : 0 < q) (hodd : q % 2 = 1) (d : Fp q)
+    (bs : List Nat) (p : Fp q × Fp q)
+    (hn : leBytesToNat bs < 2 ^ 256) (hy : leBytesToNat bs % 2 ^ 255 < q)
+    (h : Codec.edDecodeGen d bs = some p) (hx : p.1.v ≠ 0 ∨ leBytesToNat bs / 2 ^ 255 % 2 = 0) :
+    p.2.v + (p.1.v % 2) * 2 ^ 255 = leBytesToNat bs := by
+  unfold Codec.edDecodeGen at h
+  simp only at h
+  split at h
+  · cases h
+  · next x0 hs =>
+    have hx0 := Fp.sqrt_lt hq0 hs
+    have hdec : leBytesToNat bs = leBytesToNat bs % 2 ^ 255 + (leBytesToNat bs / 2 ^ 255) * 2 ^ 255 := by
+      have := Nat.div_add_mod (leBytesToNat bs) (2 ^ 255); omega
+    have h2 : leBytesToNat bs / 2 ^ 255 < 2 := by
+      apply Nat.div_lt_of_lt_mul; omega
+    -- the non-negative root `xe`
+    obtain ⟨xe, hxe, e1, e2⟩ : ∃ xe : Fp q, xe = (if x0.isOdd then -x0 else x0) ∧
+        xe.v % 2 = 0 ∧ xe.v < q := by
+      refine ⟨_, rfl, ?_⟩
+      by_cases ho : x0.isOdd = true
+      · rw [if_pos ho]
+        have hodd' : x0.v % 2 = 1 := by simpa [Fp.isOdd] using ho
+        have hne : x0.v ≠ 0 := by omega
+        obtain ⟨a, b⟩ := neg_parity hodd hx0 hne
+        exact ⟨by omega, b⟩
+      · rw [if_neg ho]
+        have : x0.v % 2 ≠ 1 := by simpa [Fp.isOdd] using ho
+        exact ⟨by omega, hx0⟩
+    rw [← hxe] at h
+    rw [Nat.mod_eq_of_lt hy] at h
+    by_cases hsg : (leBytesToNat bs / 2 ^ 255 % 2 == 1) = true
+    · rw [if_pos hsg] at h
+      cases h
+      simp only at hx ⊢
+      have hs1 : leBytesToNat bs / 2 ^ 255 = 1 := by
+        have : leBytesToNat bs / 2 ^ 255 % 2 = 1 := by simpa using hsg
+        omega
+      have hne : xe.v ≠ 0 := by
+        intro hz
+        cases hx with
+        | inl hx =>
+          apply hx
+          show negMod xe.v q = 0
+          rw [hz]; unfold negMod; simp
+        | inr hx => omega
+      obtain ⟨a, _⟩ := neg_parity hodd e2 hne
+      rw [a]; omega
+    · rw [if_neg hsg] at h
+      cases h
+      simp only
+      have : leBytesToNat bs / 2 ^ 255 % 2 ≠ 1 := by simpa using hsg
+      omega
+
+
+end MidnightZK.C11
